@@ -933,6 +933,10 @@ func (g *Gen) Plan(seed uint64) *Plan {
 		isScript := g.R.Chance(g.Cfg.ScriptRate)
 		st := Step{Kind: "tx"}
 		if g.Cfg.ScnRate > 0 && g.R.Chance(g.Cfg.ScnRate) {
+			scnDepthLimit = 2000
+			if g.Cfg.DeepCalls {
+				scnDepthLimit = 256
+			}
 			st = g.scn.next(g.R)
 		} else if isScript {
 			st.Kind = "script"
